@@ -1,0 +1,84 @@
+// SPDX-FileCopyrightText: 2026 The Pion community <https://pion.ly>
+// SPDX-License-Identifier: MIT
+
+//go:build verif
+
+package rtpbuffer
+
+// Machine-checked contracts (comment-only; read by /verif/govc, never compiled into a normal build).
+//
+// ---- reference-counted packets
+//
+//@ func (*RetainablePacket).Retain
+//@   modifies p.count, p.countMu
+//@   ensures refused_when_released: (result != nil) <==> (old(p.count) == 0)
+//@   ensures counted: p.count == ite(old(p.count) == 0, 0, old(p.count) + 1)
+//@
+//@ func (*RetainablePacket).Release
+//@   requires held: p.count >= 1
+//@   modifies p.count, p.header, p.buffer, p.payload, p.countMu, p.header.*, p.buffer.*
+//@   ensures counted: p.count == old(p.count) - 1
+//@   ensures kept_while_referenced: old(p.count) > 1 ==> p.header == old(p.header) && p.buffer == old(p.buffer) && p.payload == old(p.payload)
+//@   ensures recycled_once: old(p.count) > 1 ==> calls("p.onRelease") == 0
+//@   ensures recycled_at_zero: old(p.count) == 1 ==> calls("p.onRelease") == 1 && callarg("p.onRelease", 0) == old(p.header) && callarg("p.onRelease", 1) == old(p.buffer)
+//@        && p.header == nil && p.buffer == nil && len(p.payload) == 0
+//@
+//@ # ---- ring buffer of sent packets (property C04)
+//@ #
+//@ # Abstract view taken from the property statement: sent(r, x) is the packet sent with sequence number x if x is
+//@ # among the `size` most recent numbers up to the highest one added, nil otherwise.
+//@ def sent(r *RTPBuffer, x uint16) *RetainablePacket := ite(r.started && r.highestAdded - x < r.size && r.packets[x % r.size] != nil
+//@        && r.packets[x % r.size].sequenceNumber == x, r.packets[x % r.size], nil)
+//@
+//@ pred bufwf(r *RTPBuffer) := pow2(r.size) && len(r.packets) == int(r.size)
+//@ pred bufinv(r *RTPBuffer) := bufwf(r)
+//@     && (!r.started ==> (forall k uint16 :: k < r.size ==> r.packets[k] == nil))
+//@     && (r.started ==> (forall k uint16 :: k < r.size && r.packets[k] != nil ==>
+//@            r.packets[k].sequenceNumber % r.size == k && r.highestAdded - r.packets[k].sequenceNumber < r.size && r.packets[k].count >= 1))
+//@
+//@ # fewer than 2^62 outstanding references to any buffered packet (an assumption on histories, not an invariant)
+//@ pred refsBounded(r *RTPBuffer) := forall k uint16 :: k < r.size && r.packets[k] != nil ==> r.packets[k].count < (1 << 62)
+//@
+//@ func (*RTPBuffer).Get
+//@   requires inv: bufinv(r)
+//@   requires refs_bounded: refsBounded(r)
+//@   modifies r.packets[seq % r.size].count, r.packets[seq % r.size].countMu
+//@   ensures inv: bufinv(r)
+//@   ensures exact: result == sent(r, seq)
+//@   ensures retained: result != nil ==> result.count == old(result.count) + 1
+//@   ensures view_unchanged: forall x uint16 :: sent(r, x) == old(sent(r, x))
+//@
+//@ # offset of slot k from the slot of sequence number base+1, going round the ring
+//@ def slotoff(r *RTPBuffer, k uint16, base uint16) uint16 := (k - (base + 1)) & (r.size - 1)
+//@
+//@ func (*RTPBuffer).Add
+//@   requires inv: bufinv(r)
+//@   requires pkt: packet != nil && packet.count >= 1
+//@   requires not_buffered_yet: forall k uint16 :: k < r.size ==> r.packets[k] != packet
+//@   modifies *
+//@   ensures inv: bufinv(r)
+//@   ensures started: r.started && r.size == old(r.size)
+//@   ensures highest: r.highestAdded == ite(!old(r.started) || packet.sequenceNumber - old(r.highestAdded) < 32768, packet.sequenceNumber, old(r.highestAdded))
+//@   ensures view_first: !old(r.started) ==> forall x uint16 :: sent(r, x) == ite(x == packet.sequenceNumber, packet, nil)
+//@   ensures view_duplicate_of_highest: old(r.started) && packet.sequenceNumber == old(r.highestAdded) ==> forall x uint16 :: sent(r, x) == old(sent(r, x))
+//@   ensures view_newer: old(r.started) && packet.sequenceNumber != old(r.highestAdded) && packet.sequenceNumber - old(r.highestAdded) < 32768 ==>
+//@        forall x uint16 :: sent(r, x) == ite(x == packet.sequenceNumber, packet, ite(packet.sequenceNumber - x < r.size, old(sent(r, x)), nil))
+//@   ensures view_late_in_window: old(r.started) && packet.sequenceNumber - old(r.highestAdded) >= 32768 && old(r.highestAdded) - packet.sequenceNumber < r.size ==>
+//@        forall x uint16 :: sent(r, x) == ite(x == packet.sequenceNumber, packet, old(sent(r, x)))
+//@   ensures view_too_old: old(r.started) && packet.sequenceNumber - old(r.highestAdded) >= 32768 && old(r.highestAdded) - packet.sequenceNumber >= r.size ==>
+//@        forall x uint16 :: sent(r, x) == old(sent(r, x))
+//@   ensures evicted_released_once: forall k uint16 :: k < r.size && old(r.packets[k]) != nil && r.packets[k] != old(r.packets[k]) ==> old(r.packets[k]).count == old(r.packets[k].count) - 1
+//@   ensures kept_untouched: forall k uint16 :: k < r.size && old(r.packets[k]) != nil && r.packets[k] == old(r.packets[k]) ==>
+//@        r.packets[k].count == old(r.packets[k].count) && r.packets[k].header == old(r.packets[k].header) && r.packets[k].payload == old(r.packets[k].payload) && r.packets[k].sequenceNumber == old(r.packets[k].sequenceNumber)
+//@   ensures stored_intact: sent(r, packet.sequenceNumber) == packet ==> packet.count == old(packet.count) && packet.header == old(packet.header) && packet.payload == old(packet.payload)
+//@   loop 1 opt noautoframe
+//@   loop 1 invariant range: i - old(r.highestAdded) - 1 <= packet.sequenceNumber - old(r.highestAdded) - 1
+//@   loop 1 invariant shape: r.size == old(r.size) && r.packets == old(r.packets) && r.highestAdded == old(r.highestAdded) && r.started
+//@   loop 1 invariant cleared: forall k uint16 :: k < r.size && slotoff(r, k, old(r.highestAdded)) < i - old(r.highestAdded) - 1 ==> r.packets[k] == nil
+//@   loop 1 invariant kept: forall k uint16 :: k < r.size && slotoff(r, k, old(r.highestAdded)) >= i - old(r.highestAdded) - 1 ==> r.packets[k] == old(r.packets[k])
+//@   loop 1 invariant counts: forall k uint16 :: k < r.size && old(r.packets[k]) != nil ==>
+//@           old(r.packets[k]).sequenceNumber == old(r.packets[k].sequenceNumber)
+//@        && old(r.packets[k]).count == ite(slotoff(r, k, old(r.highestAdded)) < i - old(r.highestAdded) - 1, old(r.packets[k].count) - 1, old(r.packets[k].count))
+//@        && (slotoff(r, k, old(r.highestAdded)) >= i - old(r.highestAdded) - 1 ==> old(r.packets[k]).header == old(r.packets[k].header) && old(r.packets[k]).payload == old(r.packets[k].payload))
+//@   loop 1 invariant new_packet: packet.count == old(packet.count) && packet.header == old(packet.header) && packet.payload == old(packet.payload) && packet.sequenceNumber == old(packet.sequenceNumber)
+//@   loop 1 decreases packet.sequenceNumber - i
